@@ -223,7 +223,8 @@ plan("C14", "exploration",
      "conflicting duties (same target/different data, surround either way, two blocks at one slot) by account name or share key, through single and batch endpoints, routed by a drawn "
      "strategy (complementary halves, t-sized overlapping sets, both to every instance, drawn subsets with repeats), all requests of a phase concurrent under the seeded scheduler; half "
      "the runs crash- or clean-restart instances and then retry both duties everywhere; a decoy account (with or without history) rides in some batches; a quarter of the attestation runs first send one duty in a batch "
-     "with an exact-capacity short-domain entry (a panic is the death of that daemon: image restart). distinct = distinct (n,t,conflict,strategy,restarts,schedule); non-trivial = at least one partial "
+     "with an exact-capacity short-domain entry (a panic is the death of that daemon: image restart); a third of the runs finally try both duties through the generic endpoints of every instance "
+     "(the duty's root under its slashable domain alone, and in a Multisign beside a harmless entry for the validator, on several workers) and count whatever verifies. distinct = distinct (n,t,conflict,strategy,restarts,schedule); non-trivial = at least one partial "
      "signature was released. Oracle: BLS-valid partial signatures are counted per duty (one per instance): never both >= t; a duty that reaches t recovers a valid composite signature.",
      q, t, real_vs_stub=REAL_W2)
 
